@@ -9,6 +9,8 @@ CHECKS = {
     "C06": prio.check_C06,
     "C07": prio.check_C07,
     "C15": prio.check_C15,
+    "C16": prio.check_C16,
+    "C17": prio.check_C17,
     "C13": pure.check_C13,
     "C14": pure.check_C14,
     "C18": pure.check_C18,
